@@ -346,7 +346,7 @@ fn finish(sink: &mut Sink, p: &Program, joined: Vec<(Handle, Vec<String>, Option
                 let seen: u64 = results.first().and_then(|r| r.parse().ok()).unwrap_or(u64::MAX);
                 let again = poll_once(&mut s, &w);
                 if again == "Pending" && seen != value {
-                    sink.oracle_fail("C04,C01", &format!("thread {t}: next_now returned {seen}, the final value is {value}, and the subscriber's next poll is Pending: the update was marked observed without being seen"));
+                    sink.oracle_fail("C04,C01,C02", &format!("thread {t}: next_now returned {seen}, the final value is {value}, and the subscriber's next poll is Pending: the update was marked observed without being seen"));
                 }
                 if again.starts_with("Ready") && again != format!("Ready({value})") {
                     sink.oracle_fail("C04", &format!("thread {t}: after next_now the poll answers {again}, the final value is {value}"));
